@@ -1,6 +1,6 @@
 """C15 — Deriving a model never changes another model; field order is deterministic.
 
-case = {"steps": [op, ...]}     a *history* of 5-30 derivation / evolution operations, pure JSON.
+case = {"steps": [op, ...]}     a *history* of 4-30 derivation / evolution operations, pure JSON.
 
 The history is interpreted by `Machine` against a pool of live spyne models.  Every class
 that becomes reachable from the pool (the pooled models, the field types that child_attrs /
@@ -38,7 +38,7 @@ from .. import env, jv
 from .. import findings as F
 
 PROPERTY = "C15"
-RULE = ("case = history of 5-30 operations (primitive customisation with generated facets, "
+RULE = ("case = history of 4-30 operations (primitive customisation with generated facets, "
         "customize(**attrs), child_attrs / child_attrs_all (incl. inherited and not-yet-existing "
         "fields), Array / Iterable / Array(wrapped=False) / customize(max_occurs), Mandatory, new "
         "class, subclass, append_field / insert_field) drawn as one JSON value; operands refer to "
@@ -297,6 +297,7 @@ class Machine(object):
         self.aborted = False
         self.step_no = -1
         self.evolving = None
+        self._preach = None
         self.tmpl = {}
         for name, cls, fam in S["roots"]:
             n = self._new("simple", fam, dict(S["pristine"][name]), how="root", label=name)
@@ -371,7 +372,7 @@ class Machine(object):
         if not srcs:
             return "unrelated"
         p = srcs[0]
-        preach = self.reach(p)
+        preach = self._preach if self._preach is not None else self.reach(p)
         if b in preach:
             return "source"      # a type the operand is built of (field type, member, parent)
         broot, proot = self.root_of(b), self.root_of(p)
@@ -742,6 +743,8 @@ class Machine(object):
 
     def invariant(self, op, srcs, new_pairs):
         before = len(self.nodes)
+        # what the primary operand is built of, before any re-synchronisation in this step
+        self._preach = self.reach(srcs[0]) if srcs else None
         for cls, nid in new_pairs:
             if cls in self.reg:
                 k = self.reg[cls]
@@ -1422,25 +1425,25 @@ def _complex_step(draw, op):
             "idx": draw(st.integers(-1, 3)), "ghost": draw(_ghost)}
 
 
-_OPS_EARLY = ["prim", "prim", "new", "new", "array", "mand"]
-_OPS_LATE = ["prim", "new", "sub", "sub", "cust", "cust", "child", "child", "child_all", "array",
-             "array", "mand", "mand", "append", "append", "insert", "insert"]
+_OPS = ["prim", "prim", "prim", "new", "new", "new", "sub", "sub", "cust", "cust", "child", "child",
+        "child_all", "array", "array", "mand", "mand", "append", "append", "insert", "insert"]
 
 
 @st.composite
-def histories(draw):
-    n = draw(st.integers(5, 30))
-    steps = []
-    ncx = 0
-    for _ in range(n):
-        op = draw(st.sampled_from(_OPS_LATE if ncx else _OPS_EARLY))
-        if op == "prim":
-            steps.append(draw(_prim_step()))
-        else:
-            steps.append(draw(_complex_step(op)))
-            if op == "new":
-                ncx += 1
-    return {"steps": steps}
+def _any_step(draw):
+    op = draw(st.sampled_from(_OPS))
+    if op == "prim":
+        return draw(_prim_step())
+    return draw(_complex_step(op))
+
+
+def histories():
+    """4-30 steps (mean about 17).  A list of lists of independent steps, so that the shrinker
+    can delete any step; operations whose operand kind is not in the pool yet are skipped by
+    the interpreter."""
+    chunk = st.lists(_any_step(), min_size=2, max_size=8)
+    return st.lists(chunk, min_size=2, max_size=8).map(
+        lambda ll: {"steps": [x for l in ll for x in l][:30]})
 
 
 # --------------------------------------------------------------------------- contract
@@ -1449,18 +1452,23 @@ def shards(tier):
     return [{"kind": "hyp", "i": i, "n": n} for i in range(16)]
 
 
+_FINAL_SIGS = ("C15|field-order|schema", "C15|field-order|xml", "C15|field-order|dict",
+               "C15|schema-mismatch", "C15|hashseed", "C15|escaped")
+
+
 def run_case(case, rec, hashseed="no", sink=None):
     m = Machine(oracle=True)
-    try:
-        m.run(case.get("steps") or [])
+    m.run(case.get("steps") or [])
+    target = getattr(rec, "_target_sig", None)
+    if target is None or target.startswith(_FINAL_SIGS):
         obs = m.final_observation()
-    except Exception as e:      # a bug of the harness must be loud
-        raise
+    else:
+        obs = None      # shrinking a per-step signature: the end-of-history rendering is not needed
     fails = list(m.fails)
     if hashseed == "now":
         others = replay_under_seeds([case])
         fails.extend(compare_seeds(case, {s: o[0] for s, o in others.items()}))
-    elif sink is not None:
+    elif sink is not None and obs is not None:
         sink(case, obs, m)
     # one failure per signature per case is enough
     seen, uniq = set(), []
